@@ -9,6 +9,8 @@ ENGINES = [
      "kind_free_text": "scripted in-process executor registered with the real executor registry + harness-owned release schedule; trace oracles"},
     {"name": "storemodel", "path": "harness/chk/c06", "serves_properties": ["C06", "C18", "C20"],
      "kind_free_text": "rapid state machines comparing the real stores / API with in-memory reference models after every step"},
+    {"name": "crashkit", "path": "ptrace/sysstop.c", "serves_properties": ["C07", "C08", "C16", "C18"],
+     "kind_free_text": "ptrace supervisor (count / kill-at-k / hold-at-k over file, socket and exec system calls) + recorder helper executing scripted store operations with acknowledgements"},
     {"name": "authgrid", "path": "harness/chk/c17", "serves_properties": ["C17"],
      "kind_free_text": "header grammar x auth configuration grid through the real middleware chain with httptest"},
     {"name": "loaderfuzz", "path": "harness/yamlgen", "serves_properties": ["C13", "C19"],
@@ -106,6 +108,12 @@ META = {
         "technique": "property-based testing (rapid): constructive generator of parameter strings (expected values known by construction) against the real loader, record->reload round-trip oracle, and real child processes whose exact environment is dumped with `env -0` at every consumer position incl. retry and restart",
         "level_text": "Generated search over the documented parameter syntax x value alphabets and over payloads x sizes x consumer positions with real processes; every observed environment value compared with the value known by construction.",
         "level_note": "Trusted: `env -0` reports the child's environment faithfully; yaml.v2 as emitter of the generated definitions. The CLI quoting layer is not part of the in-process legs.",
+    },
+    "C18": {
+        "engine": "storemodel", "design_ref": "DESIGN.md section 3 C18",
+        "technique": "model-based (stateful) property testing with rapid over client.Client + real stores against a reference model, plus fault enumeration: SIGKILL at every file-system call of a save (ptrace supervisor) with an old-or-new oracle",
+        "level_text": "Generated operation histories over similar names and candidate texts compared with a reference model after every step; every system-call boundary of UpdateSpec enumerated for all pairs of valid texts.",
+        "level_note": "Trusted: the reference model (~80 lines); dag.LoadYAML as the definition of 'valid'; the ptrace supervisor's call classification. Kill points are exhaustive for the listed pairs only.",
     },
 }
 
